@@ -15,4 +15,10 @@ for sd in sorted(res):
     ob = re.search(r"counterexample (\S+)", v)
     sig = re.search(r"sig=(\S+)", v)
     first = f"`{ob.group(1)}` `{sig.group(1).rstrip(':')}`" if ob and sig else ("(see replay)" if r["caught"] else "-")
-    print(f"| {sd} | {files}: {what} | {needs} | {'**caught** (exit 1)' if r['caught'] else 'MISSED (exit ' + str(r['exit']) + ')'} | {first} |")
+    if r.get("caught") is None:
+        status = "retired (" + (m.get("retired_reason") or "")[:120] + ")"
+    elif r["caught"]:
+        status = "**caught** (exit 1" + (", by the " + r["checked_with"] + " check" if r.get("checked_with") not in (None, r["property"]) else "") + ")"
+    else:
+        status = "MISSED (exit " + str(r["exit"]) + ")"
+    print(f"| {sd} | {files}: {what} | {needs} | {status} | {first} |")
